@@ -80,8 +80,24 @@ func runC16P(r *simkit.Run, c Cfg) {
 		rhost = nil
 		r.Probe("receiver-with-topic-and-no-host")
 	}
+	var ownerCancel context.CancelFunc
+	if rhost != nil && tp.Chance(1, 5, "ownerTopic") {
+		// a receiver with a host, given a topic that the application made
+		// and owns: the application may shut its pubsub down before it
+		// closes the receiver (one of the calls below); Close must return
+		// and the watcher exit all the same
+		rtopic, rcancel, err := gossiptopic.MakeTopic(pw.recv, "ipni-test")
+		if err != nil {
+			r.Violate("c16.setup", "MakeTopic: %v", err)
+			return
+		}
+		defer rcancel()
+		ownerCancel = rcancel
+		ropts = append(ropts, announce.WithTopic(rtopic))
+		r.Probe("receiver-with-host-and-the-application's-topic")
+	}
 	topicName := "ipni-test"
-	if rhost != nil && tp.Chance(1, 6, "hostNoTopic") {
+	if rhost != nil && ownerCancel == nil && tp.Chance(1, 6, "hostNoTopic") {
 		// a libp2p host but no topic (what a subscriber built with a host
 		// and RecvAnnounce("") makes): direct announcements only
 		topicName = ""
@@ -120,7 +136,11 @@ func runC16P(r *simkit.Run, c Cfg) {
 	}
 	for i := 0; i < ncalls; i++ {
 		ti := tp.Choose(ntask, "task")
-		plan[ti] = append(plan[ti], tp.Choose(5, "op"))
+		nop := 5
+		if ownerCancel != nil {
+			nop = 6
+		}
+		plan[ti] = append(plan[ti], tp.Choose(nop, "op"))
 	}
 	// one task publishes gossip announcements
 	npub := tp.Range(1, 3, "npub")
@@ -139,7 +159,7 @@ func runC16P(r *simkit.Run, c Cfg) {
 		r.Go(fmt.Sprintf("T%d", ti), func(t *simkit.Task) {
 			for _, op := range plan[ti] {
 				t.Yield("op")
-				cl := &call{name: []string{"Close", "Direct(A)", "Direct(B)", "Next", "Uncache(A)"}[op], started: true, step: r.Step()}
+				cl := &call{name: []string{"Close", "Direct(A)", "Direct(B)", "Next", "Uncache(A)", "application shuts its pubsub down"}[op], started: true, step: r.Step()}
 				calls = append(calls, cl)
 				switch op {
 				case 0:
@@ -155,6 +175,9 @@ func runC16P(r *simkit.Run, c Cfg) {
 					cancel()
 				case 4:
 					rc.UncacheCid(cidA)
+				case 5:
+					ownerCancel()
+					r.Fault("topic-owner-shut-pubsub-down")
 				}
 				cl.returned = true
 				if op == 3 && closeCalled {
